@@ -126,7 +126,7 @@ struct PropC19
       int64_t t = 1000000000LL;
       for (int i = 0; i < n; ++i) {
         switch (sc) {
-          case S_SHARED_VAR: w.ops.push_back(mk(O_STORE, 0, 0, (uint64_t)i + 1)); break;
+          case S_SHARED_VAR: w.ops.push_back(mk(O_STORE, r.chance(0.3) ? 1 : 0, 0, (uint64_t)i + 1)); break;
           case S_ONLINE_AVG: case S_ONLINE_VAR:
             if (i > 1 && r.chance(0.15)) {w.ops.push_back(mk(O_RESET));} else {w.ops.push_back(mk(O_UPDATE, std::ldexp(1.0, i)));}
             break;
@@ -155,7 +155,7 @@ struct PropC19
         Task t2; t2.role = 1; int m = take((int)r.range(1, 4));
         for (int i = 0; i < m; ++i) {
           switch (sc) {
-            case S_SHARED_VAR: t2.ops.push_back(mk(O_LOAD)); break;
+            case S_SHARED_VAR: t2.ops.push_back(mk(O_LOAD, r.chance(0.3) ? 1 : 0)); break;
             case S_ONLINE_AVG: t2.ops.push_back(mk(r.chance(0.5) ? O_GET_AVG : O_IS_AVAIL)); break;
             case S_ONLINE_VAR: t2.ops.push_back(mk(r.pick({(int)O_GET_AVG, (int)O_IS_AVAIL, (int)O_GET_VAR}))); break;
             case S_RATE_MON: t2.ops.push_back(mk(O_RM_GET_RATE)); break;
@@ -193,7 +193,7 @@ struct PropC19
       uint32_t share = total / (uint32_t)(nr + 1 + (watchdog ? 1 : 0)) + 1;
       Task w; w.role = 0; w.repeat = share;
       switch (sc) {
-        case S_SHARED_VAR: w.ops.push_back(mk(O_STORE, 0, 0, 1)); w.seqStep = 1; break;
+        case S_SHARED_VAR: w.ops = {mk(O_STORE, 0, 0, 1), mk(O_STORE, 1, 0, 2)}; w.seqStep = 2; w.repeat = share / 2 + 1; break;
         case S_ONLINE_AVG: case S_ONLINE_VAR:
           w.ops.push_back(mk(O_UPDATE, 1)); w.vStep = 1;
           if (r.chance(0.5)) {w.ops = {mk(O_UPDATE, 1), mk(O_UPDATE, 2), mk(O_UPDATE, 3), mk(O_UPDATE, 4), mk(O_UPDATE, 5), mk(O_RESET)}; w.vStep = 5; w.repeat = share / 6 + 1;}
@@ -216,7 +216,7 @@ struct PropC19
       for (int k = 0; k < nr; ++k) {
         Task t; t.role = 1; t.repeat = share;
         switch (sc) {
-          case S_SHARED_VAR: t.ops.push_back(mk(O_LOAD)); break;
+          case S_SHARED_VAR: t.ops = {mk(O_LOAD), mk(O_LOAD, 1)}; t.repeat = share / 2 + 1; break;
           case S_ONLINE_AVG: t.ops = {mk(O_GET_AVG), mk(O_IS_AVAIL)}; t.repeat = share / 2 + 1; break;
           case S_ONLINE_VAR: t.ops = {mk(O_GET_AVG), mk(O_IS_AVAIL), mk(O_GET_VAR)}; t.repeat = share / 3 + 1; break;
           case S_RATE_MON: t.ops.push_back(mk(O_RM_GET_RATE)); break;
@@ -374,6 +374,7 @@ struct PropC19
         if (op.kind == O_UPDATE || op.kind == O_EVALUATE) {e.set("v", op.v);}
         if (op.kind >= O_RM_UPDATE && op.kind != O_RM_GET_RATE && op.kind != O_CR_GET_REPORT) {e.set("stamp_ns", (long long)op.t);}
         if (op.kind == O_STORE) {e.set("seq", (uint64_t)op.seq);}
+        if ((op.kind == O_STORE || op.kind == O_LOAD) && op.v != 0) {e.set("v", op.v).set("form", op.kind == O_STORE ? "operator=" : "operator T()");}
         ops.push(e);
       }
       o.set("ops", ops); ts.push(o);
